@@ -4,8 +4,9 @@ CONSTANTS
   OffsMod = 65536
   Atoms <- AtomsHdrNA
   MaxLen = 4
+  MaxAtoms = 99
   Cfgs <- CfgsHdrV
   Junk = 34
   EmitOn = TRUE
-INVARIANTS ResumeEqFresh Stable OffsSane Emit
+INVARIANTS ResumeEqFresh StableM OffsSane Emit EmitTwo EmitByte
 CHECK_DEADLOCK FALSE
